@@ -171,6 +171,14 @@ class MailboxProgram(Program):
         elif k == 'sender_send':
             s2, fut = self.call(st, 'sender::Sender::<M>::send', [self.href(st, op[1]), Msg.new(op[2])])
             yield s2, fut
+        elif k == 'prepare_send':
+            # `Sender::send` is a plain fn returning a boxed future: create it now, await it later (`prepared_send`)
+            s2, fut = self.call(st, 'sender::Sender::<M>::send', [self.href(st, op[1]), Msg.new(op[2])])
+            self.put(s2, op[3], fut)
+            s2.event('op_end', name, pc, k, op[3])
+            yield s2, None
+        elif k == 'prepared_send':
+            yield st, self.take(st, op[1])
         elif k == 'caller_call':
             s2, fut = self.call(st, 'Caller::<M>::call', [self.href(st, op[1]), Msg.new(op[2])])
             yield s2, fut
@@ -420,7 +428,7 @@ def oracle_backpressure(tr, cap, scripts, want_counts=False):
     v = []
     if cap is None:
         for o in _ops(tr):
-            if o['kind'] in ('send', 'sender_send', 'weak_send') and o['end'] is not None:
+            if o['kind'] in ('send', 'sender_send', 'weak_send', 'prepared_send') and o['end'] is not None:
                 scheds = [e for e in tr[o['begin']:o['end']] if e[0] == 'sched']
                 if scheds:
                     v.append(f"send on an unbounded mailbox needed more than one poll ({len(scheds) + 1})")
@@ -434,7 +442,7 @@ def oracle_backpressure(tr, cap, scripts, want_counts=False):
             term = i          # the receiver is dropped: everything still queued is taken out (and discarded)
     sends = []
     for o in _ops(tr):
-        if o['kind'] in ('send', 'sender_send', 'weak_send') and o['end'] is not None and str(o['result']).startswith('Ok'):
+        if o['kind'] in ('send', 'sender_send', 'weak_send', 'prepared_send') and o['end'] is not None and str(o['result']).startswith('Ok'):
             sends.append((o['end'], _msg_of(scripts[o['client']][o['pc']])))
     for (ri, _m) in sends:
         if term is not None and ri > term:
@@ -520,7 +528,7 @@ def oracle_handles(tr, status, scripts, initial='addr'):
         # everything accepted was handled
         order = handled_order(tr)
         for o in _ops(tr):
-            if o['kind'] in ('send', 'sender_send', 'weak_send') and o['result'] and o['result'].startswith('Ok'):
+            if o['kind'] in ('send', 'sender_send', 'weak_send', 'prepared_send') and o['result'] and o['result'].startswith('Ok'):
                 m = _msg_of(scripts[o['client']][o['pc']])
                 if m not in order:
                     c05.append(f"{m} was accepted but not handled before the actor stopped after the last drop")
